@@ -47,6 +47,7 @@ THEOREMS = [
     "Typedpy.C13.fieldSame_sameX",
     "Typedpy.C13.classX_example",
     "Typedpy.C13.default_none_kw_equiv",
+    "Typedpy.C13.dedup_examples",
     "Typedpy.C13.equiv_example",
 ]
 RULE = ("class bodies of 1-3 fields; each field an abstract meaning tree (scalar / constrained field literal / bare or "
